@@ -98,7 +98,8 @@ def programs(family, nmax, seed=0):
     return out
 
 
-def make(family, nmax, lo, hi, seed=0, reach=False):
+def make(family, nmax, lo, hi, seed=0, reach=False, lag=False):
+    """lag: the input streams begin at different times (0-2 earlier samples per stream, at least one stream starts at the common timestamp)."""
     progs = programs(family, nmax, seed)[lo:hi]
 
     def fn(ex):
@@ -115,6 +116,12 @@ def make(family, nmax, lo, hi, seed=0, reach=False):
         vals = [Power.from_watts(x) for x in xs]
         if kind == "str":
             out = fx.run_string(text, ids, dict(enumerate(vals)))
+        elif lag:
+            pre = [ex.choice(f"earlier_samples{i}", 3) for i in range(nin)]
+            ex.assume(min(pre) == 0)
+            out = fx.run_api(t, nin, vals, pre=pre)
+            if not isinstance(out, str):
+                ex.check(out.timestamp == fx.TS, "the first output is not stamped with the first common timestamp of the streams")
         else:
             out = fx.run_api(t, nin, vals)
         if reach:
@@ -149,6 +156,9 @@ def instances(tier):
 
     seed = int(os.environ.get("VERIF_SEED", "0"))
     out = [Instance("reach:str2", "make", ("str", 2, 0, 4, 0, True), "reachability twin", budget_s=60, validate_every=0)]
+    nl = len(programs("api", 2, 0))
+    out.append(Instance("api2-lagged-start", "make", ("api", 2, 0, nl, 0, False, True), f"all {nl} api programs <= 2 operands with streams that begin at different times "
+                        "(0-2 earlier samples per stream)", budget_s=200, validate_every=10, programs=nl, incremental=False))
     if tier == "quick":
         out += (_chunks("str", 4, 16) + _chunks("api", 3, 16) + _chunks("api-ops:+,-,*", 4, 4) + _chunks("api-ops:-,/,max", 4, 4)
                 + _chunks("str-ops:+,-,*", 5, 8) + _chunks("str-ops:-,/", 5, 4))
